@@ -2,6 +2,7 @@ import HappyProofs.C13.Revive
 import HappyProofs.C13.ReviveTrace
 import HappyProofs.C13.Partition
 import HappyProofs.C13.PhiMono
+import HappyProofs.C13.PhiDetect
 import HappyProofs.C13.SafetyInv
 import HappyProofs.C13.Detect
 import HappyProofs.C13.PhiTick
@@ -23,6 +24,9 @@ C13 property theorems (statements about `Spec` predicates and model runs only).
 * `phi_inf_absorbing` — once `phi` is `+∞` it stays `+∞` until the next heartbeat.
 * `phi_monotone` — with no heartbeat, `phi(now)` is non-decreasing on any increasing sample grid
   (`tail`, `nlog` parameters).
+* `phi_reaches_level`, `phi_silence_detected` (`PhiDetect.lean`) — a recorded heartbeat, at whatever
+  time (the epoch 0 included), followed by a silence of `mean-bound + Y·sd-bound` drives phi to the level of
+  standardised distance `Y`; the judge's clause `Spec.detectedSample` holds of the model.
 * `failure_detected_partial` — repaired handler: once the ack timeout of a probe of `x` fires at a
   live node `a`, `a` does not report `x` ALIVE for the rest of any run in which nothing from `x`
   (and no "alive" update about `x`) is delivered to `a`.  The bound in probe ticks after a crash is
@@ -222,6 +226,20 @@ example : PhiHyp exF [3] :=
 
 example : ((({ last := some 0, ivs := [3] } : QDet).phi exF 2, ({ last := some 0, ivs := [3] } : QDet).phi exF 5,
     ({ last := some 0, ivs := [3] } : QDet).phi exF 40)) = (.fin 0, .fin 10, .inf) := by decide
+
+/-! ### clause 5: detection at the detector level (`phi_reaches_level`, `phi_silence_detected` in
+    `PhiDetect.lean`) -/
+
+/-- non-vacuity: a single heartbeat recorded at the epoch `0` and a bootstrap interval; `PhiHyp` holds
+    (above); after `silenceBound 3 2 = 120` the model's phi is `+∞`, the clause accepts it and rejects
+    a level that is still `0` there (and accepts `0` one tick earlier, and before any heartbeat the
+    clause is not evaluated at all) -/
+example : Spec.silenceBound 3 2 = 120 ∧ levelAt exF 39 = .inf ∧
+    ({ last := some 0, ivs := [3] } : QDet).phi exF 120 = .inf ∧
+    Spec.detectedSample true 3 2 0 120 (.fin 50) (({ last := some 0, ivs := [3] } : QDet).phi exF 120) = true ∧
+    Spec.detectedSample true 3 2 0 120 (.fin 50) (.fin 0) = false ∧
+    Spec.detectedSample true 3 2 0 119 (.fin 50) (.fin 0) = true ∧
+    Spec.detectedSample false 3 2 0 120 (.fin 50) (.fin 0) = true := by decide
 
 /-! ### clause 2 -/
 
